@@ -29,3 +29,25 @@ let () =
       let s = bytes_arg h in
       let (fs, tl) = decode_all_fast (nat_of_int (List.length s + 1)) s in
       String.concat "|" (List.map frame_str fs) ^ "|rest=" ^ string_of_int (List.length tl) | _ -> "badargs")
+
+(* specseq <check_utf8> <hex stream>: everything the RFC-level spec says about a server byte stream *)
+let () =
+  reg "specseq" (function [chk; h] ->
+      let chk = s2b chk in
+      let s = bytes_arg h in
+      let (fs, tl) = decode_all_fast (nat_of_int (List.length s + 1)) s in
+      let verdicts = List.map (fun f -> match frame_verdict chk f with Legal -> "L" | Illegal -> "I" | Unconstrained -> "U") fs in
+      let rec seqs inprog = function
+        | [] -> []
+        | f :: r -> (b2s (seq_ok inprog f)) :: seqs (seq_next inprog f) r in
+      let fr f = Printf.sprintf "f%s%s:%s" (string_of_z f.wh.h_fin) (string_of_z f.wh.h_opcode) (digest_of_bytes f.wpayload) in
+      Printf.sprintf "n=%d;rest=%d;frames=%s;verdicts=%s;seq=%s;legal=%s;msgs=%s;frags=%s;pongs=%s"
+        (List.length fs) (List.length tl)
+        (String.concat "," (List.map fr fs))
+        (String.concat "," verdicts) (String.concat "," (seqs false fs))
+        (b2s (legal_seq chk false fs))
+        (String.concat "," (List.map (fun (op, d) -> string_of_z op ^ ":" ^ digest_of_bytes d) (reassemble None fs)))
+        (String.concat "," (List.map (fun ((op, fin), d) -> string_of_z op ^ string_of_z fin ^ ":" ^ digest_of_bytes d) (per_fragment fs)))
+        (String.concat "," (List.map digest_of_bytes (pongs_owed fs)))
+    | _ -> "badargs");
+  reg "closecode" (function [c] -> (match close_code (z_of_string c) with Legal -> "L" | Illegal -> "I" | Unconstrained -> "U") | _ -> "badargs")
